@@ -437,8 +437,91 @@ func runRedirect(args []string) error {
 		}
 	}
 
+	// (6) configuration-derived near misses (nearmiss.go): strings built around the CONFIGURED values of each mode -
+	// the request origin + ingress path (standalone), the ingress (SSO proxy), the SSO domain and the default redirect
+	// URL (SSO server) - through the real functions of the mode they were derived from, and the whole pool through every
+	// kind under the default configuration. thorough: the whole pool under every configuration.
+	var poolURLs, poolDomains []string
+	for _, c := range nmStandaloneCfgs {
+		poolURLs = append(poolURLs, c.origin+c.ipath)
+	}
+	for _, c := range nmServerCfgs {
+		poolURLs = append(poolURLs, c.fallback)
+		poolDomains = append(poolDomains, c.domain)
+	}
+	poolURLs = append(poolURLs, nmProxyIngresses...)
+	pool := nearMissPool(poolURLs, poolDomains)
+	for _, s := range pool {
+		i++
+		all(i, s)
+	}
+	own := func(urls, domains []string) []string {
+		if thorough {
+			return pool
+		}
+		var out []string
+		seen := map[string]bool{}
+		for _, u := range urls {
+			for _, s := range nearMisses(u) {
+				nmAdd(&out, seen, s)
+			}
+		}
+		for _, dm := range domains {
+			for _, s := range nearMissesDomain(dm) {
+				nmAdd(&out, seen, s)
+			}
+		}
+		return out
+	}
+	for _, c := range nmStandaloneCfgs {
+		for _, s := range own([]string{c.origin + c.ipath, "http" + strings.TrimPrefix(c.origin, "https") + c.ipath}, nil) {
+			d.standaloneCanon(c.ipath, c.reqpath, s)
+			d.relclean(c.ipath, c.reqpath, s)
+			pfx := c.ipath
+			if pfx == "/" {
+				pfx = ""
+			}
+			d.loginRelative(pfx, c.reqpath, s)
+		}
+	}
+	for _, c := range nmServerCfgs {
+		for _, s := range own([]string{c.fallback}, []string{c.domain}) {
+			d.ssoserver(c.domain, c.fallback, "/oauth2/login", s)
+			d.absvalid(c.domain, s)
+		}
+	}
+	for _, ing := range nmProxyIngresses {
+		for _, s := range own([]string{ing}, nil) {
+			d.ssoproxy(ing, "/oauth2/login", s)
+		}
+	}
+	d.counts["near-miss-pool"] = len(pool)
+
 	for k, v := range d.counts {
 		fmt.Fprintf(os.Stderr, "redirect: %s %d\n", k, v)
 	}
 	return nil
 }
+
+// configurations for the near-miss section. The origin of the standalone configurations is the origin of the request URL
+// that the monitor resolves against (lib/props/c04.py REQ_ORIGIN).
+var nmStandaloneCfgs = []struct{ origin, ipath, reqpath string }{
+	{"https://wonderwall.test", "/", "/oauth2/login"},
+	{"https://wonderwall.test", "", "/oauth2/callback"},
+	{"https://wonderwall.test", "/pre", "/pre/oauth2/login"},
+}
+
+// SSO server: the default redirect URL with and without a path, under and outside the SSO domain (it is operator
+// configuration and need not be under the domain), domain with and without the leading dot.
+var nmServerCfgs = []struct{ domain, fallback string }{
+	{ssoDomain, ssoFallback},
+	{"a.b", "https://d.a.b"},
+	{"a.b", "https://d.a.b/"},
+	{"a.b", "https://www.e.c"},
+	{"a.b", "https://www.e.c/min/side"},
+	{".a.b", "http://fallback.wonderwall"},
+	{"wonderwall.example", "https://www.wonderwall.example"},
+	{"example.com", "https://www.example.com:8443/"},
+}
+
+var nmProxyIngresses = []string{proxyIng, "https://p.a.b", "http://p.a.b:8080/pre/", "https://app.example.com", "http://proxy.wonderwall"}
